@@ -52,6 +52,9 @@ CLAIMED = {
   "C20": ("CrossHair (z3) with symbolic indices into candidate spelling lists: the model text built from them is read by the real Configuration().read(); spellings with equal normal form (or a reversed pair, equal form labels, equal table names, a table named like a custom or built-in form) must end in a ConfigurationException, distinct ones must be accepted and the tabulated function must follow its own definition; confirmed over all paths; counterexamples replayed; potable replay layer",
           "2 and 3 entries per section (adjacent and separated duplicates): [Pair] (10 spellings), A->B densities (8), embed/density species (5), form signatures (6), table-form headers (5), table vs custom vs built-in names (6 names, both file orders)",
           "keys beginning with white space are INI continuation lines and outside; spellings outside the candidate lists are represented by them (keys are opaque apart from whitespace, '-' and '->')", "3 C20"),
+  "C16": ("CrossHair (z3): one condition per unit and input class allowing ConfigurationException only - symbolic strings through _pair_species_func and _parse_potential_form_signature (confirmed over all paths), symbolic indices into a mutation catalogue covering every section of the input format run through the real Configuration.read + write (valid class: must not raise; every target/interpolation value of the reference manual, re-read each run); SYMX symbolic execution of the spline() modifier's validation over symbolic detach/attach/r_min; every catalogue entry replayed through potable.main on real files",
+          "all strings of <= 4 (pair keys) / <= 3 (signatures) characters over the stated alphabets; 110+ single mutations in 9 groups and 26 well-formed models; spline validation for every ordering of symbolic starts and r_min, 1..4 parts",
+          "malformations outside the catalogue are not covered; pyparsing/configparser on symbolic text is outside (regex driven)", "3 C16"),
   "C17": ("fault injection with a symbolic failing ordinal: every function evaluation compares its index with one symbolic integer k, the SYMX explorer splits on the z3-feasible classes of k (N+1, N discovered) through the real write()/action_tabulate code with a recording sink / real file; a z3 completeness VC shows the explored classes cover every integer k; each partial-output path is replayed with the model's concrete k",
           "for every tabulation target, every position k of the failing evaluation (pair, density, embedding, dipole, quadrupole functions) on the stated grids: nothing written and the exception propagates; no failure: whole table; large grids (size-dependent buffering) with k in a stated candidate set",
           "loop counts concrete per run (small grids exhaustive in k; large grids over a candidate set of k); failures modelled as exceptions leaving the callable; potable end-to-end runs on real files are a concrete replay layer", "3 C17"),
